@@ -474,4 +474,51 @@ theorem firstTrue_isSome (vals : Nat → α) (rs : List (List Int))
 
 end First
 
+
+/-! ### no hidden memory: the evaluations are functions of the frozen structure and the CURRENT leaf values -/
+
+section NoMemory
+variable {α : Type} (O : Ops α) (I : InfVals α)
+
+theorem jacPlainRows_congr (e1 e2 : Evaluator α) (hst : e1.st = e2.st)
+    (hv : leafValues O I e1 = leafValues O I e2) (fuel conNdx nnzNdx : Nat) :
+    jacPlainRows O I e1 fuel conNdx nnzNdx = jacPlainRows O I e2 fuel conNdx nnzNdx := by
+  induction fuel generalizing conNdx nnzNdx with
+  | zero => rfl
+  | succ f ih => simp only [jacPlainRows, hst, hv, ih]
+
+theorem jacIfRows_congr (e1 e2 : Evaluator α) (hst : e1.st = e2.st)
+    (hv : leafValues O I e1 = leafValues O I e2) (ks : List Nat) (conNdx condNdx jacNdx : Nat) :
+    jacIfRows O I e1 ks conNdx condNdx jacNdx = jacIfRows O I e2 ks conNdx condNdx jacNdx := by
+  induction ks generalizing conNdx condNdx jacNdx with
+  | nil => rfl
+  | cons k r ih => simp only [jacIfRows, hst, hv, ih]
+
+theorem evalPlainRows_congr (e1 e2 : Evaluator α) (hst : e1.st = e2.st)
+    (hv : leafValues O I e1 = leafValues O I e2) (rs : List (List Int)) (conNdx : Nat) :
+    evalPlainRows O I e1 rs conNdx = evalPlainRows O I e2 rs conNdx := by
+  induction rs generalizing conNdx with
+  | nil => rfl
+  | cons r t ih => simp only [evalPlainRows, hst, hv, ih]
+
+theorem evalIfRows_congr (e1 e2 : Evaluator α) (hst : e1.st = e2.st)
+    (hv : leafValues O I e1 = leafValues O I e2) (ks : List Nat) (conNdx condNdx : Nat) :
+    evalIfRows O I e1 ks conNdx condNdx = evalIfRows O I e2 ks conNdx condNdx := by
+  induction ks generalizing conNdx condNdx with
+  | nil => rfl
+  | cons k r ih => simp only [evalIfRows, hst, hv, ih]
+
+/-- two evaluator states with the same frozen structure, the same number of plain constraints and the same current leaf
+values give the same Jacobian and the same residuals — whatever was evaluated before -/
+theorem evaluate_no_memory (e1 e2 : Evaluator α) (hst : e1.st = e2.st) (hss : e1.structureSet = e2.structureSet)
+    (hn : e1.cons.length = e2.cons.length) (hv : leafValues O I e1 = leafValues O I e2) :
+    e1.evaluateCsr O I = e2.evaluateCsr O I ∧ e1.evaluate O I = e2.evaluate O I := by
+  constructor
+  · simp only [Evaluator.evaluateCsr, hss, hn, hst, jacPlainRows_congr O I e1 e2 hst hv,
+      jacIfRows_congr O I e1 e2 hst hv]
+  · simp only [Evaluator.evaluate, hss, hn, hst, evalPlainRows_congr O I e1 e2 hst hv,
+      evalIfRows_congr O I e1 e2 hst hv]
+
+end NoMemory
+
 end Wntr.Aml
